@@ -51,8 +51,8 @@ CLAIMS = {
         note=TRUST + "The radix tree itself is third-party code: its contract is assumed, and validated on every run only by a bounded randomised model test against the real tree (reported under bounded_checks, not counted as proof).",
         tech="deductive verification: WP VCs over go/ssa, modular callee contracts with case analysis, opaque spec relation, SMT", ref="4 C05"),
     "C09": dict(
-        text="Lemmas over the verified kernel contracts: zooming in and back out is the identity on each axis for all 36x36 zoom pairs, descendants partition the finer grid, the ancestor of -1 is -1, Higher (the merge ancestor) is the floor ancestor; the exactness of the pairwise overlap relation (C05) gives overlap of nested voxels.",
-        note=TRUST + "The clauses about point lookup (nesting of point IDs) and merge of all descendants depend on C01/C04 functions that are not under contract yet; they are not decided by this check.",
+        text="Lemmas over the verified kernel contracts: zooming in and back out is the identity on each axis for all 36x36 zoom pairs, descendants partition the finer grid, the ancestor of -1 is -1, Higher (the merge ancestor) is the floor ancestor; the exactness of the pairwise overlap relation (C05) gives overlap of nested voxels; the vertical index of a point at a coarser zoom is the floor ancestor of its index at any finer zoom (lemma over the exact contract of the vertical kernel, all 36x36 zoom pairs, IEEE semantics), and likewise for x and y over ideal reals.",
+        note=TRUST + "The clause 'merging the complete set of descendants returns the ID' depends on the merge body (C04, not decided). The horizontal nesting lemma inherits the ideal-real reading of C01's x and y formulas.",
         tech="deductive verification: lemmas over function contracts, exhaustive zoom case split, SMT", ref="4 C09"),
     "C13": dict(
         text="ConvertTileXYZsToExtendedSpatialIDs is proved against an exact set-level specification: no error iff every tile is in range, the result is duplicate-free and contains exactly the IDs (hZoom,x,y,outV,z) with z in the covering range of C12 of some tile, nil on error; loop and map invariants are quantified over lists of any length.",
